@@ -1,6 +1,9 @@
 package drv
 
 import (
+	"verifharness/wsraw"
+	"reflect"
+	"strings"
 	"bytes"
 	"fmt"
 	"math/rand"
@@ -24,6 +27,9 @@ type MtScript struct {
 		Slow int `json:"slow"`
 		KiB  int `json:"kib"`
 	} `json:"contend,omitempty"`
+	// Pairing: legacy connection pairs under identifiers of several forms; an inbound connection must pair with the
+	// outbound connection that carries the same identifier and with no other
+	Pairing bool `json:"pairing,omitempty"`
 }
 
 type mtTunnel struct {
@@ -61,6 +67,9 @@ func (m *mtTunnel) drain(d time.Duration) int {
 
 // RunMulti executes the schedule and appends one contiguous trace per tunnel.
 func (i *Inst) RunMulti(s *MtScript, tw *TraceWriter, rng *rand.Rand) error {
+	if s.Pairing {
+		return i.runPairing(s, tw, rng)
+	}
 	var ts []*mtTunnel
 	defer func() {
 		for _, m := range ts {
@@ -310,4 +319,82 @@ func (i *Inst) contend(ts []*mtTunnel, slow, kib int, rng *rand.Rand) error {
 		}
 	}
 	return stalled
+}
+
+
+// runPairing: two legacy tunnels at a time whose connection identifiers are distinct but alike (several forms); the
+// answer to a handshake sent on an inbound connection must arrive on the outbound connection with the same
+// identifier, and an inbound connection without a partner must not be paired with anybody.
+func (i *Inst) runPairing(s *MtScript, tw *TraceWriter, rng *rand.Rand) error {
+	rd := s.Cfg.Redir
+	if rd == nil {
+		rd = DefaultRedir()
+	}
+	tw.Line(M{"ev": "reset", "script": s.ID, "origin": s.Origin, "transport": "legacy",
+		"cfg": M{"tokenAuth": s.Cfg.TokenAuth, "smartCard": s.Cfg.SmartCard, "redir": rd, "idle": s.Cfg.Idle}})
+	n := rng.Intn(1 << 30)
+	long := strings.Repeat("k", 180)
+	pairs := [][3]string{
+		{"word", fmt.Sprintf("conn-%d-1", n), fmt.Sprintf("conn-%d-2", n)},
+		{"guid", fmt.Sprintf("{6F1C7A52-1111-4000-8000-%012X}", n), fmt.Sprintf("{6F1C7A52-1111-4000-8000-%012X}", n+1)},
+		{"guid-plain", fmt.Sprintf("6f1c7a52-2222-4000-8000-%012x", n), fmt.Sprintf("6f1c7a52-2222-4000-8000-%012x", n+1)},
+		{"case", fmt.Sprintf("Station-%d-ABC", n), fmt.Sprintf("station-%d-abc", n)},
+		{"path", fmt.Sprintf("workstation-%d/session-9", n), fmt.Sprintf("workstation-%d/session-8", n)},
+		{"long", long + fmt.Sprint(n) + "a", long + fmt.Sprint(n) + "b"},
+		{"prefix", fmt.Sprintf("id-%d", n), fmt.Sprintf("id-%d-x", n)},
+	}
+	caps := uint16(0)
+	if s.Cfg.TokenAuth {
+		caps = 2
+	}
+	pc := i.NewProtoCtx(Script{Cfg: s.Cfg, Transport: "legacy", Tun: TunParams{User: "nuser1"}}, rng)
+	isHsResp := func(b []byte) bool { return len(b) >= 8 && tsgu.Decode(b).Type == 2 }
+	for _, pr := range pairs {
+		dA := i.dialOpts(pc.OpenOpts(), pr[1])
+		dB := i.dialOpts(pc.OpenOpts(), pr[2])
+		outA, _, errA := wsraw.DialLegacyOut(dA)
+		time.Sleep(30 * time.Millisecond)
+		outB, _, errB := wsraw.DialLegacyOut(dB)
+		time.Sleep(30 * time.Millisecond)
+		if errA != nil || errB != nil || outA == nil || outB == nil {
+			return fmt.Errorf("pairing %s: cannot open the outbound connections (%v %v)", pr[0], errA, errB)
+		}
+		exchange := func(d wsraw.DialOpts, own, other *wsraw.LegacyOut) (bool, bool, *wsraw.LegacyIn) {
+			in, _, err := wsraw.DialLegacyIn(d)
+			if err != nil || in == nil {
+				return false, false, nil
+			}
+			in.WriteChunk(make([]byte, 100))
+			time.Sleep(30 * time.Millisecond)
+			in.WriteChunk(tsgu.Handshake(1, 0, 0, caps))
+			b, err := own.ReadPacket(3 * time.Second)
+			ownOK := err == nil && isHsResp(b)
+			x, err2 := other.ReadSome(150 * time.Millisecond)
+			return ownOK, err2 == nil && len(x) > 0, in
+		}
+		ownB, leakA, inB := exchange(dB, outB, outA)
+		tw.Line(M{"ev": "iso", "dir": "pair-" + pr[0] + "-second", "own": ownB, "foreign": leakA, "n": 0})
+		ownA, leakB, inA := exchange(dA, outA, outB)
+		tw.Line(M{"ev": "iso", "dir": "pair-" + pr[0] + "-first", "own": ownA, "foreign": leakB, "n": 0})
+		// an inbound connection whose identifier no outbound connection carries
+		dC := i.dialOpts(pc.OpenOpts(), pr[1]+"-nobody")
+		if inC, _, err := wsraw.DialLegacyIn(dC); err == nil && inC != nil {
+			inC.WriteChunk(make([]byte, 100))
+			time.Sleep(20 * time.Millisecond)
+			inC.WriteChunk(tsgu.Handshake(1, 0, 0, caps))
+			xa, _ := outA.ReadSome(150 * time.Millisecond)
+			xb, _ := outB.ReadSome(50 * time.Millisecond)
+			tw.Line(M{"ev": "iso", "dir": "pair-" + pr[0] + "-nobody", "own": true, "foreign": len(xa) > 0 || len(xb) > 0, "n": 0})
+			inC.Close()
+		}
+		for _, c := range []interface{ Close() error }{inA, inB} {
+			if c != nil && !reflect.ValueOf(c).IsNil() {
+				c.Close()
+			}
+		}
+		outA.Close()
+		outB.Close()
+		time.Sleep(20 * time.Millisecond)
+	}
+	return nil
 }
